@@ -123,16 +123,39 @@ def points(n, tier, lo=0):
     return sorted(set(head + tail + mid[::step]))
 
 
-def fault_lines(counts, tier):
-    lines = []
+def axes_of(counts):
+    """(scenario, axis, lo, n) for every fault axis that applies"""
+    r = []
     for name, kind, (ln, allocs, sbytes, plain) in counts:
-        lines.append("scen %s plain" % name)
         if "l" in kind:
-            lines += ["scen %s trunc %d" % (name, k) for k in points(ln, tier)]
-        lines += ["scen %s alloc %d" % (name, k) for k in points(allocs + 1, tier, 1)]
+            r.append((name, "trunc", 0, ln))
+        r.append((name, "alloc", 1, allocs + 1))
         if kind.endswith("s"):
-            for ax in ("sfail", "sthrow"):
-                lines += ["scen %s %s %d" % (name, ax, k) for k in points(sbytes, tier)]
+            r.append((name, "sfail", 0, sbytes))
+            r.append((name, "sthrow", 0, sbytes))
+    return r
+
+
+def probe_lines(counts):
+    """first / middle / last position of every axis: decides whether an axis hangs (each hanging point costs the
+    child's alarm time, so the quick tier then samples that axis sparsely)"""
+    lines = []
+    for name, ax, lo, n in axes_of(counts):
+        if n > lo:
+            for k in sorted(set([lo, (lo + n - 1) // 2, n - 1])):
+                lines.append("scen %s %s %d" % (name, ax, k))
+    return lines
+
+
+def fault_lines(counts, tier, hanging=()):
+    lines = []
+    for name, kind, _ in counts:
+        lines.append("scen %s plain" % name)
+    for name, ax, lo, n in axes_of(counts):
+        pts = points(n, tier, lo)
+        if (name, ax) in hanging and tier == "quick":
+            pts = pts[::max(1, len(pts) // 6)]
+        lines += ["scen %s %s %d" % (name, ax, k) for k in pts]
     return lines
 
 
@@ -159,6 +182,7 @@ def run(ctx, vlib):
 
     # ---- what the inventory says (names for the report; the verdict is T_C20_throwing_dtors)
     new_dtors = None
+    new_noexcept = None
     if inv is not None:
         exp = IC.expected_throwing_dtors() or []
         cur = [(d["name"], d["callees"]) for d in inv["dtors"] if d["callees"] or d["noexcept_false"]]
@@ -168,13 +192,19 @@ def run(ctx, vlib):
             notes.append("destructors calling possibly-throwing code that are not in the expected list: " + "; ".join(new_dtors))
         if gone:
             notes.append("expected throwing destructors no longer found (rename or repair): " + "; ".join(gone))
+        expn = IC.coq_eval("expected_noexcept_callers", "InvSpec") or []
+        new_noexcept = ["%s -> %s" % (d["name"], ", ".join(d["callees"])) for d in inv.get("noexcept_fns", []) if d["name"] not in expn]
+        if new_noexcept:
+            notes.append("noexcept functions calling possibly-throwing code that are not in the expected list: " + "; ".join(new_noexcept))
         if inv.get("errors"):
             notes.append("inventory: clang failed on %s" % ", ".join(e["label"] for e in inv["errors"]))
+        classes["inventory: noexcept functions with a body"] = inv.get("noexcept_fn_count", 0)
+        classes["inventory: noexcept functions calling non-noexcept code"] = len(inv.get("noexcept_fns", []))
         classes["inventory: destructors with a body"] = len(inv["dtors"])
         classes["inventory: destructors calling non-noexcept code"] = len(cur)
     else:
         notes.append("inventory regeneration disabled (VERIF_NO_REGEN=1)")
-    tier = "thorough" if (not ctx.get("proofs_ok", True) or new_dtors) else ctx["tier"]
+    tier = "thorough" if (not ctx.get("proofs_ok", True) or new_dtors or new_noexcept) else ctx["tier"]
 
     # ---- (c1) the scope models against the library
     cases = IC.load_corpus("C20") + gen_model_cases(rng, tier)
@@ -214,8 +244,18 @@ def run(ctx, vlib):
             # the scenario does not even complete without an injected fault (e.g. the CSV ragged-rows save terminates):
             # it still gets its plain run and, through it, its verdict; allocation points cannot be counted
             counts.append((n, kind, (0, 0, 0, ans)))
-    flines = fault_lines(counts, tier)
-    fo = vlib.run_driver(impl, flines, timeout=1800)
+    pl = probe_lines(counts)
+    po = dict(zip(pl, vlib.run_driver(impl, pl, timeout=1800, chunk=4)))
+    hang_votes = {}
+    for l, a in po.items():
+        t = l.split(" ")
+        if a == "HANG":
+            hang_votes[(t[1], t[2])] = hang_votes.get((t[1], t[2]), 0) + 1
+    hanging = set(k for k, v in hang_votes.items() if v >= 2)
+    flines = [l for l in fault_lines(counts, tier, hanging) if l not in po]
+    fo = vlib.run_driver(impl, flines, timeout=1800, chunk=max(4, len(flines) // (4 * vlib.NCPU)))
+    flines = pl + flines
+    fo = [po[l] for l in pl] + fo
     term_by = {}
     for l, a in zip(flines, fo):
         t = l.split(" ")
@@ -229,7 +269,7 @@ def run(ctx, vlib):
                     failing.append(dict(driver="fault", case=l, implementation=a, expected="EXC(<category>): every strict prefix of a MessagePack document must be rejected",
                                         judge="FAIL", why="a strict prefix of a MessagePack document was loaded without an error"))
             continue
-        kid = explain(known, l, a) if a.startswith("TERMINATE") else None
+        kid = explain(known, l, a) if a.startswith(("TERMINATE", "HANG")) else None
         if kid:
             term_by.setdefault(kid, []).append((l, a))
             continue
@@ -259,7 +299,7 @@ def run(ctx, vlib):
                 rule="evaluations = model-comparable cases (every truncation of generated {fixstr|fixint -> fixint} MsgPack maps, random in-domain byte strings, random CSV row-width lists) + fault points (scenario x axis x position, each in its own child process); non-trivial = distinct cases on which the outcome is not plain success",
                 samples=samples, classes=classes, failing=failing, diffs=diffs, known_lines=known_lines, notes=notes,
                 broken="correspondence of the scope models (coq/InvModel.v) with the library (drv_fault)",
-                extra=dict(new_throwing_dtors=new_dtors, scenarios=len(scen), tier_used=tier,
+                extra=dict(new_throwing_dtors=new_dtors, new_noexcept_callers=new_noexcept, scenarios=len(scen), tier_used=tier,
                            terminate_points_explained={k: len(v) for k, v in term_by.items()}))
 
 
